@@ -30,3 +30,4 @@ import Mahotas.Proofs.CScalarTies.Spline
 import Mahotas.Proofs.CScalarTies.CurRank
 import Mahotas.Proofs.CScalarTies.DtIntersect
 import Mahotas.Proofs.CScalarTies.FastPositions
+import Mahotas.Proofs.CScalarTies.UnionFind
